@@ -10,28 +10,31 @@ EXTENDS MonCommon
 
 MonInit == [ sid |-> "", called |-> <<>>, writes |-> <<>>, chunks |-> <<>>, acks |-> <<>>, grants |-> <<>>, hookB |-> <<>>, hookA |-> <<>>,
              closeReq |-> <<>>, closeCall |-> 0, closeRet |-> "none", faults |-> 0, quiesced |-> FALSE, sendFail |-> 0,
-             flushes |-> 0, watchdog |-> 0 ]
+             flushes |-> 0, watchdog |-> 0, closeTO |-> 0, ackTO |-> 0, closeCallT |-> 0, closeBound |-> 0, ackAt |-> <<>> ]
 \* (scenario parameter p.track = short id of the upstream to judge, e.g. "u2"; default: the first upstream opened)
 MonReset(e) == IF "p" \in DOMAIN e /\ "track" \in DOMAIN e.p THEN [MonInit EXCEPT !.sid = e.p.track] ELSE MonInit
 
 \* a chunk group as <<id, pts>>; alias-form groups are resolved by the broker's own alias table ("?" if unknown)
 GroupsOf(gs) == { <<gs[k].id, gs[k].pts>> : k \in 1..Len(gs) }
 
+OptF(e, f) == IF f \in DOMAIN e THEN e[f] ELSE 0
 MonStep(m, e) ==
-    CASE e.ev = "ApiRet" /\ e.op = "OpenUpstream" /\ m.sid = "" /\ e.err = "" -> [m EXCEPT !.sid = e.sid]
+    CASE e.ev = "ApiRet" /\ e.op = "OpenUpstream" /\ e.err = "" /\ (m.sid = "" \/ (m.sid = e.sid /\ m.closeTO = 0)) ->
+            [m EXCEPT !.sid = e.sid, !.closeTO = OptF(e, "closeTimeoutMs"), !.ackTO = OptF(e, "ackTimeoutMs")]
       [] e.ev = "ApiRet" /\ e.op = "Write" /\ e.sid = m.sid ->
             [m EXCEPT !.writes = Append(@, [id |-> e.id, pts |-> e.pts, call |-> e.ci, ret |-> e.i, err |-> e.err])]
       [] e.ev = "ApiCall" /\ e.op = "Write" /\ e.sid = m.sid -> [m EXCEPT !.called = Append(@, [id |-> e.id, pts |-> e.pts])]
       [] e.ev = "ApiRet" /\ e.op = "Flush" /\ e.sid = m.sid -> [m EXCEPT !.flushes = @ + 1]
-      [] e.ev = "ApiCall" /\ e.op = "CloseUp" /\ e.sid = m.sid -> [m EXCEPT !.closeCall = e.i]
+      [] e.ev = "ApiCall" /\ e.op = "CloseUp" /\ e.sid = m.sid -> [m EXCEPT !.closeCall = e.i, !.closeCallT = OptF(e, "t"), !.closeBound = OptF(e, "boundMs")]
       [] e.ev = "ApiRet" /\ e.op = "CloseUp" /\ e.sid = m.sid -> [m EXCEPT !.closeRet = e.err]
       [] e.ev = "BRecvChunk" /\ e.sid = m.sid ->
             [m EXCEPT !.chunks = Append(@, [seq |-> e.seq, g |-> GroupsOf(e.groups), gl |-> e.groups, ids |-> RangeS(e.ids), i |-> e.i])]
       [] e.ev = "BRecvChunk" /\ e.sid = "?" -> [m EXCEPT !.chunks = Append(@, [seq |-> e.seq, g |-> {<<"?", <<>>>>}, gl |-> <<>>, ids |-> {}, i |-> e.i])]
       [] e.ev = "BRecvReq" /\ e.kind = "UpstreamCloseRequest" /\ e.sid = m.sid ->
-            [m EXCEPT !.closeReq = Append(@, [final |-> e.final, total |-> e.total, i |-> e.i])]
+            [m EXCEPT !.closeReq = Append(@, [final |-> e.final, total |-> e.total, i |-> e.i, t |-> OptF(e, "t")])]
       [] e.ev = "BSendAck" /\ e.sid = m.sid ->
             [m EXCEPT !.acks = @ \o [k \in 1..Len(e.results) |-> <<e.results[k][1], e.results[k][2]>>],
+                      !.ackAt = @ \o [k \in 1..Len(e.results) |-> <<e.results[k][1], e.i>>],
                       !.grants = @ \o [k \in 1..Len(e.aliases) |-> [al |-> e.aliases[k][1], id |-> e.aliases[k][2], i |-> e.i]]]
       [] e.ev = "BSendFail" -> [m EXCEPT !.sendFail = @ + 1]
       [] e.ev = "HookBefore" /\ e.sid = m.sid -> [m EXCEPT !.hookB = Append(@, [seq |-> e.seq, g |-> GroupsOf(e.groups)])]
@@ -89,6 +92,13 @@ SendHookWrong(m) == \/ \E n \in 1..N(m) : Cardinality({ k \in 1..Len(m.hookB) : 
 \* (e) ack hook: never more reports than results sent; the first result of every acknowledged seq is reported; codes are the broker's
 AckHookUnsound(m) == ~BagIncl(m.hookA, m.acks)
 AckHookMissing(m) == m.sendFail = 0 /\ \E n \in 1..N(m) : (\E a \in RangeS(m.acks) : a[1] = n) /\ ~(\E h \in RangeS(m.hookA) : h[1] = n)
+\* Close gives the broker the close timeout to acknowledge (no ack timeout configured): a close request that reaches the broker while a
+\* received chunk is still unacknowledged comes no earlier than 3/4 of the bound that governs the wait (close timeout, Close's context)
+MinP(a, b) == IF a = 0 THEN b ELSE IF b = 0 THEN a ELSE IF a < b THEN a ELSE b
+ClosedEarly(m) == /\ m.closeTO > 0 /\ m.ackTO = 0 /\ m.closeCall > 0 /\ Len(m.closeReq) >= 1 /\ m.sendFail = 0
+                  /\ LET q == m.closeReq[1] IN
+                     /\ \E c \in RangeS(m.chunks) : c.i < q.i /\ ~\E a \in RangeS(m.ackAt) : a[1] = c.seq /\ a[2] < q.i
+                     /\ (q.t - m.closeCallT) * 4 < MinP(m.closeTO, m.closeBound) * 1000 * 3
 \* an empty chunk must never be transmitted
 EmptyChunk(m) == \E c \in RangeS(m.chunks) : c.g = {} \/ (\E g \in c.g : g[2] = <<>> /\ ~\E w \in RangeS(m.writes) : w.id = g[1] /\ w.pts = <<>>)
 
@@ -114,7 +124,7 @@ MonVerdict(m) ==
          \cup Clause("CloseTotalsWrong", CloseTotalsWrong(m)) \cup Clause("ChunkAfterClose", ChunkAfterClose(m))
          \cup Clause("SendHookWrong", SendHookWrong(m))
          \cup Clause("AckHookUnsound", AckHookUnsound(m)) \cup Clause("AckHookMissing", AckHookMissing(m))
-         \cup Clause("EmptyChunk", EmptyChunk(m))
+         \cup Clause("EmptyChunk", EmptyChunk(m)) \cup Clause("ClosedBeforeAckOrTimeout", ClosedEarly(m))
 
 MonStats(m) == [ premise |-> IF Premise(m) THEN 1 ELSE 0, writes |-> Len(m.writes), chunks |-> Len(m.chunks), acks |-> Len(m.acks),
                  grants |-> Len(m.grants), hookA |-> Len(m.hookA), hookB |-> Len(m.hookB),
